@@ -71,10 +71,14 @@ def load_findings():
 RLIMIT_PER_MS = 4000   # about one millisecond of z3 work on an idle core of this sandbox
 
 
-def solve_text(text, timeout_ms, use_cvc5=True):
+def solve_text(text, timeout_ms, use_cvc5=True, prefer=None):
     """z3 E-matching only (short), then z3 with MBQI, then cvc5, on the SMT-LIB text of one VC."""
     t0 = time.time()
     res, model, backend, reason = "unknown", None, "z3", ""
+    if prefer == "cvc5":
+        r3, _t, reason3 = smt._solve_cvc5(text, max(timeout_ms * 3, 120000))
+        if r3 == "unsat":
+            return "discharged", None, "cvc5", "", time.time() - t0
     for mbqi, tmo in ((False, min(timeout_ms, 4000)), (True, timeout_ms)):
         s = z3.Solver()
         # deterministic resource budget (verdicts must not flip when the machine is loaded);
@@ -93,7 +97,7 @@ def solve_text(text, timeout_ms, use_cvc5=True):
             break
         reason = s.reason_unknown()
     if res == "unknown" and use_cvc5:
-        r3, _t, reason3 = smt._solve_cvc5(text, timeout_ms * 3)
+        r3, _t, reason3 = smt._solve_cvc5(text, max(timeout_ms * 3, 120000))
         if r3 == "unsat":
             res, backend = "discharged", "cvc5"
         elif r3 == "sat":
@@ -141,7 +145,7 @@ def solve_unit(job):
     _setup_path()
     load_specs()
     timeout_ms = 10000 if tier == "quick" else 60000
-    res, model, backend, reason, t = solve_text(text, timeout_ms)
+    res, model, backend, reason, t = solve_text(text, timeout_ms, prefer=REGISTRY[target].prefer)
     rec = {"name": name, "kind": kind, "status": res, "backend": backend, "time": round(t, 3), "size": size,
            "reason": reason if res == "unknown" else ""}
     if res == "refuted":
